@@ -66,7 +66,8 @@ def gen_exchange(rng):
     return {'url': 'http://%s%s' % (host, path), 'header': header, 'body': body, 'framing': framing,
             'status': r['status'], 'mime': r['mime'], 'linesep': r['linesep'],
             'cuts': fakenet.random_cuts(rng, len(header) + len(body), rng.choice(['none', 'one', 'few', 'many'])),
-            'compress': rng.random() < 0.5, 'digests': rng.random() < 0.85}
+            'compress': rng.random() < 0.5, 'digests': rng.random() < 0.85,
+            'ignore_length': rng.random() < 0.3}
 
 
 class Server:
@@ -85,7 +86,8 @@ class Server:
 
     async def respond(self, conn):
         data = self.ex['header'] + self.ex['body']
-        await conn.send_segments(fakenet.segment(data, self.ex['cuts']), eof=(self.ex['framing'] == 'close'))
+        await conn.send_segments(fakenet.segment(data, self.ex['cuts']),
+                                 eof=(self.ex['framing'] == 'close' or bool(self.ex.get('ignore_length'))))
 
 
 def run_exchange(ex, seed):
@@ -120,7 +122,13 @@ def run_exchange(ex, seed):
         net.default = lambda: Server(ex)
         with net:
             pool = ConnectionPool(resolver=fakenet.FakeResolver())
-            client = Client(connection_pool=pool)
+            if ex.get('ignore_length'):
+                # --ignore-length: Stream(ignore_length=True) adds `Connection: close` to the request it sends
+                import functools
+                from wpull.protocol.http.stream import Stream
+                client = Client(connection_pool=pool, stream_factory=functools.partial(Stream, ignore_length=True))
+            else:
+                client = Client(connection_pool=pool)
             rec = WARCRecorder(os.path.join(directory, wc.PREFIX), params=WARCRecorderParams(
                 compress=cfg['compress'], temp_dir=directory, log=False, digests=cfg['digests'], cdx=True))
             rec.listen_to_http_client(client)
@@ -179,6 +187,11 @@ def check_exchange(ctx, ex, pid):
         if ok and len([r for r in recs if r.type == b'response']) != 1:
             problems.append(('record-missing', 'write_record', 'completed exchange, %d response records' % len([r for r in recs if r.type == b'response'])))
     tags = ['client:' + outcome.split(':')[0].replace(' ', '-'), 'client:' + ex['framing']]
+    if ex.get('ignore_length'):
+        tags.append('client:ignore-length')
+    for r in recs:
+        if r.type == b'request' and conn is not None and r.block != bytes(conn.received):
+            problems.append(('block-not-wire-bytes', 'request_data', 'request record block differs from the bytes the server received'))
     ctx.case(('client', repr(ex)), nontrivial=ok, tags=tags)
     if pid == 'C05':
         fails, _ = wc.oracle_c05(obs, by_file, problems, {})
